@@ -15,7 +15,7 @@ struct Pat {
     chunk: u16,
 }
 
-const KINDS: [&str; 9] = [
+const KINDS: [&str; 10] = [
     "sorted-append",
     "front-insertion",
     "middle-insertion",
@@ -25,6 +25,7 @@ const KINDS: [&str; 9] = [
     "concatenate-small-treaps",
     "random-mix",
     "ordered-insert-by-split_by",
+    "chunks-built-on-worker-threads-then-merged",
 ];
 
 fn bound(n: usize) -> f64 {
@@ -78,7 +79,7 @@ fn run_pat_inner(pat: &Pat) -> CaseResult {
     st.size = n as u64;
     let mut rng = SplitMix(pat.seed as u64 ^ 0xC16);
     let mut t: Treap<Lt> = Treap::new();
-    let kind = pat.kind % 9;
+    let kind = pat.kind % 10;
     st.label(KINDS[kind as usize]);
     // intermediate checkpoints at 10^k so that a degenerate tree is reported at a small size
     let mut next_cp = 100usize;
@@ -184,6 +185,48 @@ fn run_pat_inner(pat: &Pat) -> CaseResult {
                 }
             }
         }
+        9 => {
+            // W worker threads each build a chunk (their priorities come from their own thread's source); the chunks
+            // are sent back and concatenated here. W from 2 to n (one node per thread).
+            let w = match pat.chunk % 5 {
+                0 => 2,
+                1 => 16,
+                2 => 200,
+                3 => n.min(3000),
+                _ => (pat.chunk as usize % 64) + 2,
+            }
+            .min(n.max(1));
+            let per = (n + w - 1) / w;
+            let mut start = 0usize;
+            while start < n {
+                let k = per.min(n - start);
+                let handles: Vec<_> = (0..8usize)
+                    .filter_map(|j| {
+                        let s0 = start + j * per;
+                        if s0 >= n {
+                            return None;
+                        }
+                        let kk = per.min(n - s0);
+                        Some(std::thread::spawn(move || {
+                            let mut c: Treap<Lt> = Treap::new();
+                            for i in 0..kk {
+                                c.insert_at(i, Lt::new((s0 + i) as u32));
+                            }
+                            c
+                        }))
+                    })
+                    .collect();
+                let _ = k;
+                for h in handles {
+                    let c = h.join().unwrap();
+                    let add = c.size();
+                    t = Treap::merge(std::mem::replace(&mut t, Treap::new()), c);
+                    len += add;
+                    start += add;
+                }
+                cp(&t, len, true, &mut maxh)?;
+            }
+        }
         _ => {
             // ordered insertion through split_by, ascending keys (the order that degenerates a plain BST)
             for i in 0..n {
@@ -195,7 +238,7 @@ fn run_pat_inner(pat: &Pat) -> CaseResult {
             }
         }
     }
-    let sh = checkpoint(&t, len, pat, "end", matches!(kind, 0 | 1 | 6 | 8))?;
+    let sh = checkpoint(&t, len, pat, "end", matches!(kind, 0 | 1 | 6 | 8 | 9))?;
     let _ = maxh.max(sh.height);
     if len >= 1000 {
         st.nontrivial = true;
@@ -214,7 +257,7 @@ fn real_main() {
     ctx.rule(
         "A case is an adversarial construction pattern (sorted appends, repeated front insertion, middle insertion, alternating ends, \
          split-and-swap rotations, remove/re-insert churn, concatenation of small treaps, random mix, ascending ordered insertion via \
-         split_by) with generated size, seed offset of the library's priority stream and chunk parameter, priorities drawn by the \
+         split_by, chunks built on 2..n worker threads and merged) with generated size, seed offset of the library's priority stream and chunk parameter, priorities drawn by the \
          library. Oracle at 10^k checkpoints and at the end, from an iterative read-only walk over the public node fields: priorities heap-ordered on every edge in one direction for the whole tree (ties allowed), height <= \
          5*log2(n+1)+20. The C03-style small histories with library priorities add heap checks after every operation. Non-trivial = a \
          pattern instance with n >= 1000 (sizes staged 10^2..10^5 quick, ..10^6 thorough). Distinct = distinct pattern parameters.",
@@ -239,8 +282,8 @@ fn real_main() {
     for (n, reps) in stages {
         let name = format!("patterns-n{}", n);
         let lo = n - n / 4;
-        let strat = (0u8..9, lo..=n, any::<u32>(), any::<u16>()).prop_map(|(kind, n, seed, chunk)| Pat { kind, n, seed, chunk });
-        ctx.prop_cfg(&name, "treap-pattern", reps * 9, 64, strat, run_pat);
+        let strat = (0u8..10, lo..=n, any::<u32>(), any::<u16>()).prop_map(|(kind, n, seed, chunk)| Pat { kind, n, seed, chunk });
+        ctx.prop_cfg(&name, "treap-pattern", reps * 10, 64, strat, run_pat);
         if ctx.violations() > 0 {
             break;
         }
